@@ -18,7 +18,8 @@
 EXTENDS Integers, Sequences, FiniteSets, TLC
 
 CONSTANTS R2,   \* component range -R2..R2 in dimension 1 and 2
-          R3    \* component range -R3..R3 in dimension 3
+          R3,   \* component range -R3..R3 in dimension 3
+          Rich  \* TRUE: all height pairs and adjustment offsets (thorough tier)
 
 Sq(x) == x * x
 RECURSIVE SumSq(_, _, _)
@@ -37,9 +38,9 @@ Dist(v1, h1, a1, v2, h2, a2) ==
        IN IF adj > 0 THEN adj ELSE raw
 
 Vecs(d) == IF d = 3 THEN [1..3 -> -R3..R3] ELSE [1..d -> -R2..R2]
-Heights == {0, 2, 5}
 \* adjustment pairs placed around the point where the adjusted distance changes sign
-AdjPairs(raw) == { <<p, dl - raw - p>> : p \in {-3, 0, 4}, dl \in {-1, 0, 1, 6} } \cup {<<0, 0>>, <<2, 3>>}
+AdjPairs(raw) == { <<p, dl - raw - p>> : p \in (IF Rich THEN {-3, 0, 4} ELSE {-3, 4}), dl \in {-1, 0, 1, 6} } \cup {<<0, 0>>, <<2, 3>>}
+HeightPairs == IF Rich THEN {<<0, 0>>, <<2, 0>>, <<0, 5>>, <<2, 5>>} ELSE {<<0, 0>>, <<2, 5>>}
 
 Rec(v1, h1, a1, v2, h2, a2) ==
   [a |-> "in", ep |-> "exact", v1 |-> v1, v2 |-> v2, h1 |-> h1, h2 |-> h2, a1 |-> a1, a2 |-> a2,
@@ -47,7 +48,7 @@ Rec(v1, h1, a1, v2, h2, a2) ==
 
 Pairs(d) == { p \in Vecs(d) \X Vecs(d) : IsSquare(SumSq(p[1], p[2], 1)) }
 SameDim == UNION { UNION { { Rec(p[1], hh[1], ad[1], p[2], hh[2], ad[2]) : ad \in AdjPairs(Raw(p[1], hh[1], p[2], hh[2])) }
-                           : hh \in {<<0, 0>>, <<2, 0>>, <<0, 5>>, <<2, 5>>} } : p \in Pairs(1) \cup Pairs(2) \cup Pairs(3) }
+                           : hh \in HeightPairs } : p \in Pairs(1) \cup Pairs(2) \cup Pairs(3) }
 MVecs == {<<1>>, <<1, 2>>, <<3, 4>>, <<0, 0, 0>>, <<>>}
 Mismatch == { Rec(p[1], 1, 0, p[2], 1, 0) : p \in { q \in MVecs \X MVecs : Len(q[1]) # Len(q[2]) } }
 FloatIn == { [a |-> "in", ep |-> "float", v1 |-> <<>>, v2 |-> <<>>, h1 |-> 0, h2 |-> 0, a1 |-> 0, a2 |-> 0, sc |-> 0,
